@@ -7,10 +7,10 @@ import solverslices
 from props.c04 import TRUSTED
 
 THEOREMS = ["C05_analytic_closed_form", "C05_analytic_mean", "C05_analytic_propagation", "C05_step_is_taylor3",
-            "C05_eigen", "C05_numeric_closed_form", "C05_third_order_real_partial"]
-ALLOWED = {"C05_third_order_real_partial": core.AX_REALS}
+            "C05_eigen", "C05_numeric_closed_form", "C05_third_order_real_partial", "C05_third_order", "C05_third_order_uniform"]
+ALLOWED = {"C05_third_order_real_partial": core.AX_REALS, "C05_third_order": core.AX_REALS, "C05_third_order_uniform": core.AX_REALS}
 ASSUMPTIONS = [
-    "C05_third_order_real_partial bounds the remainder for real decay rates only; for complex vertical wavenumbers (advection) the O(dz^3) clause is carried by the order oracle (error ratio per halving >= 6 within the resolved regime)",
+    "C05_third_order: |numerical - analytic| <= |qh| e^B B with B = |lam|^4/24 h dmax^3 for every complex eigenvalue (Re lam >= 0 proved), every grid, every node, in exact complex arithmetic (instance ROps); rounding is not covered - the order oracle measures the ratio per halving on the real code (>= 6 within the resolved regime)",
     "the numerical/analytic closed forms are theorems in exact arithmetic (Laws O)",
 ]
 
